@@ -572,7 +572,19 @@ def m_misc(ex, st, callee, A):
     if re.match(r'^<(.*) as Into<(.*)>>::into$', callee):
         m = re.match(r'^<(.*) as Into<(.*)>>::into$', callee)
         s, t = m.group(1).strip(), m.group(2).strip()
-        if s == t or (base_type(s) == base_type(t) and type_args(s) == type_args(t)):
+        if s == t:
+            return A[0]
+        if base_type(s) == base_type(t) and type_args(s) == type_args(t):
+            # the same type written with two paths - unless they are two types of the same NAME in different modules with a conversion between them
+            # (ast::PatternElem / est::PatternElem): then the crate has a From impl for exactly this pair
+            if '::' in s and '::' in t and s.split('<')[0] != t.split('<')[0]:
+                callee2 = f'<{t} as From<{s}>>::from'
+                try:
+                    rs = ex.resolve(callee2, A)
+                except NotEncoded:
+                    rs = None
+                if rs is not None or any(rx.search(callee2) for rx, _, _ in ex.stubs):
+                    return ex.dispatch(st, callee2, A)
             return A[0]
         return ex.dispatch(st, f'<{t} as From<{s}>>::from', A)
     m = re.match(r'^<(.*) as From<(.*)>>::from$', callee)
@@ -695,7 +707,7 @@ def m_vec_macro(ex, st, callee, A):
         return Agg('struct', '~vec_iter', None, list(A[0].fields))
     if re.search(r'^<(?:std::vec::|alloc::vec::)?Vec<.*> as Deref(Mut)?>::deref(_mut)?$', callee) and isinstance(A[0], Ref) and isinstance(deref_(A[0]), Agg) and deref_(A[0]).name == '~vec':
         return A[0]
-    if (re.search(r'slice::<impl \[.*\]>::iter$', callee) or re.search(r'^<&(?:std::vec::|alloc::vec::)?Vec<.*> as IntoIterator>::into_iter$', callee)) and isinstance(A[0], Ref):
+    if (re.search(r'slice::<impl \[.*\]>::iter$', callee) or re.search(r'^<&(?:std::vec::|alloc::vec::)?Vec<.*> as IntoIterator>::into_iter$', callee) or re.search(r'^<&\[.*\] as IntoIterator>::into_iter$', callee)) and isinstance(A[0], Ref):
         v = deref_(A[0])
         if isinstance(v, Agg) and v.name == '~vec':
             f2, p2 = ex.resolve_place(st, A[0].fid, A[0].place) if not isinstance(ex.read(st, A[0].fid, A[0].place), Agg) else (A[0].fid, A[0].place)
